@@ -85,6 +85,17 @@ def _work(task):
                     if rp2.get("reproduced"):
                         rp = rp2
                         rp["float_inputs"] = True
+                if not rp.get("reproduced") and hasattr(c, "concrete_candidates"):
+                    # native search around the failed obligation (contract-specific candidates)
+                    saved = o.model
+                    for cand in c.concrete_candidates(variant):
+                        o.model = cand
+                        rp3 = core.replay(c, variant, o)
+                        if rp3.get("reproduced"):
+                            rp = rp3
+                            rp["found_by"] = "native search over contract-supplied candidates"
+                            break
+                    o.model = saved
                 j["replay"] = rp
             out.append(j)
         info["level"] = c.level
